@@ -28,11 +28,21 @@ func genC01(seed uint64, tier string) *plan.Plan {
 	ncl := r.Range(3, 6)
 	ph := plan.Phase{Name: "work", Yields: true}
 	vn := 0
+	// fresh variant: the clients move together through a series of DMaps nobody has written to yet,
+	// so that first writes to a partition (the fragment does not exist) happen concurrently
+	fresh := r.Bool(300)
+	if fresh {
+		p.Yield = plan.YieldSpec{ArmPermille: 700, ParkPermille: 500, MaxUs: int64(Pick(r, 50, 300, 1000))}
+	}
 	for c := 1; c <= ncl; c++ {
 		sc := entry(r, c, n)
 		nops := r.Range(6, 14)
 		for i := 0; i < nops; i++ {
 			op := plan.Op{Key: fmt.Sprintf("k%d", r.Intn(nkeys)), D: int64(Pick(r, 0, 0, 10, 200, 1500))}
+			if fresh {
+				op.DM = fmt.Sprintf("fresh%d", i/2)
+				op.D = int64(Pick(r, 0, 0, 0, 10, 100))
+			}
 			switch x := r.Intn(100); {
 			case x < 30:
 				op.K = "get"
@@ -54,6 +64,68 @@ func genC01(seed uint64, tier string) *plan.Plan {
 		ph.Clients = append(ph.Clients, sc)
 	}
 	p.Phases = []plan.Phase{ph}
+	if !fresh && r.Bool(200) {
+		// janitor variant: keys are deleted and written again in quick succession, so their fragments
+		// are empty again and again while the janitor (every 1-3 ms here) looks for empty fragments to
+		// remove, with many short pauses at the scheduling points
+		p.Cluster.JanitorMs = r.Range(1, 3)
+		p.Yield = plan.YieldSpec{ArmPermille: 700, ParkPermille: 500, MaxUs: int64(Pick(r, 200, 600, 1500))}
+		for ci := range ph.Clients {
+			sc := &ph.Clients[ci]
+			sc.Ops = nil
+			for i, k := 0, r.Range(15, 40); i < k; i++ {
+				op := plan.Op{Key: fmt.Sprintf("k%d", r.Intn(nkeys)), D: int64(Pick(r, 0, 0, 50, 300, 1000))}
+				switch x := r.Intn(100); {
+				case x < 25:
+					op.K = "get"
+				case x < 60:
+					op.K = "put"
+				case x < 70:
+					op.K, op.NX = "put", true
+				default:
+					op.K = "del"
+				}
+				if op.K == "put" {
+					vn++
+					op.Val = fmt.Sprintf("v%d.%d", sc.ID, vn)
+				}
+				sc.Ops = append(sc.Ops, op)
+			}
+		}
+		p.Phases = []plan.Phase{ph}
+	}
+	if fresh {
+		// phases are barriers: in each one every client starts on the same untouched DMap at once
+		p.Phases = nil
+		for f, nf := 0, r.Range(5, 12); f < nf; f++ {
+			fp := plan.Phase{Name: "fresh", Yields: true}
+			for ci := range ph.Clients {
+				sc := plan.Script{ID: ph.Clients[ci].ID, Kind: ph.Clients[ci].Kind, M: ph.Clients[ci].M}
+				for i, k := 0, r.Range(1, 3); i < k; i++ {
+					op := plan.Op{DM: fmt.Sprintf("fresh%d", f), Key: fmt.Sprintf("k%d", r.Intn(nkeys)), D: int64(Pick(r, 0, 0, 0, 20))}
+					switch x := r.Intn(100); {
+					case x < 20:
+						op.K = "get"
+					case x < 60:
+						op.K = "put"
+					case x < 80:
+						op.K, op.NX = "put", true
+					case x < 88:
+						op.K, op.XX = "put", true
+					default:
+						op.K = "del"
+					}
+					if op.K == "put" {
+						vn++
+						op.Val = fmt.Sprintf("v%d.%d", sc.ID, vn)
+					}
+					sc.Ops = append(sc.Ops, op)
+				}
+				fp.Clients = append(fp.Clients, sc)
+			}
+			p.Phases = append(p.Phases, fp)
+		}
+	}
 	return p
 }
 
